@@ -1,7 +1,7 @@
 (* C15 -- read_runtime_data() keys equal sensors() for every model and capability set (ET capability model
    Model/ETCaps.v, compared with the real class on every run; finite spaces enumerated completely by vm_compute). *)
 From Coq Require Import List Bool Arith.
-From GW Require Import ETCaps ETCapsProofs ETProg ETGen ETRefine.
+From GW Require Import ETCaps ETCapsProofs ETProg ETGen ETRefine DTProg DTGen DTRefine.
 Import ListNotations.
 
 (* from EVERY capability set (reachable or not) and for EVERY set of refused blocks / battery presence: whenever the call
@@ -27,8 +27,29 @@ Proof. exact read_runtime_data_refined. Qed.
 Theorem C15_sensors_is_the_model : forall c, run_sensors et_sensors_always et_sensors_guarded c = sensors_groups c.
 Proof. exact sensors_refined. Qed.
 
+(* DT: read_runtime_data as translated from the current source (tools/dt2v.py) IS the capability model of Model/DTProg.v, for every
+   capability and every outcome of the two read requests *)
+Theorem C15_dt_read_runtime_data_is_the_model : forall o_running o_meter hm,
+  run_dt o_running o_meter dt_read_runtime_data_prog hm = dt_read_runtime_data o_running o_meter hm.
+Proof. exact dt_read_runtime_data_refined. Qed.
+
+(* a DT call that returns has the keys of exactly the lists sensors() reports afterwards; a call that raises leaves the capability alone *)
+Theorem C15_dt_keys_equal_sensors : forall o_running o_meter hm,
+  match dt_read_runtime_data o_running o_meter hm with
+  | (hm', _, DReturned d) => d = Some (dt_sensors hm')
+  | (hm', _, DRaised _) => hm' = hm
+  | (_, _, DGoOn) => False end.
+Proof. exact dt_keys_equal_sensors. Qed.
+
+Theorem C15_dt_meter_stays_off : forall o_running o_meter,
+  fst (fst (dt_read_runtime_data o_running o_meter false)) = false /\ ~ In true (snd (fst (dt_read_runtime_data o_running o_meter false))).
+Proof. exact dt_meter_stays_off. Qed.
+
 Print Assumptions C15_keys_equal_sensors.
 Print Assumptions C15_succeeds_by_second_call.
 Print Assumptions C15_filter_level_invariant.
 Print Assumptions C15_read_runtime_data_is_the_model.
 Print Assumptions C15_sensors_is_the_model.
+Print Assumptions C15_dt_read_runtime_data_is_the_model.
+Print Assumptions C15_dt_keys_equal_sensors.
+Print Assumptions C15_dt_meter_stays_off.
